@@ -5,6 +5,7 @@ import (
 	"math/rand"
 	"os"
 	"runtime"
+	"strconv"
 	"strings"
 
 	"verif/harness/internal/hx"
@@ -376,6 +377,9 @@ func runGSync(f *hx.Flags) {
 		for j := 0; j < nsched; j++ {
 			r.Add(genCase(r.Rng, variant, progs, j%3))
 		}
+	}
+	if v, err := strconv.Atoi(os.Getenv("VERIF_DFSLIMIT")); err == nil && v > 0 {
+		limit = v // experiments: schedules per enumerated program
 	}
 	enum := dfsPrograms
 	if f.Tier == "thorough" {
